@@ -46,27 +46,67 @@ Proof.
   rewrite H. simpl. apply forallb_forall. rewrite Forall_forall in H0. exact H0.
 Qed.
 
-Lemma registered_app b rs x y : registered b rs (x ++ y) = registered b rs x ++ registered b rs y.
-Proof. unfold registered. apply flat_map_app. Qed.
+(* registrations of events that are not callbacks: additive, no counters *)
+Definition reg0 (b : N) (rs : list reg) (lg : list pev) : list N :=
+  flat_map (fun e => if N.eqb (e_pt e) P_VIEW && N.eqb (e_aux e) 1 then [] else regsfor b rs (e_pt e) 0) lg.
+Lemma reg0_app b rs x y : reg0 b rs (x ++ y) = reg0 b rs x ++ reg0 b rs y.
+Proof. unfold reg0. apply flat_map_app. Qed.
+Lemma reg0_one b rs pt lv d c aux :
+  reg0 b rs [mkEv pt lv d c aux] = if N.eqb pt P_VIEW && N.eqb aux 1 then [] else regsfor b rs pt 0.
+Proof. unfold reg0. simpl. rewrite app_nil_r. reflexivity. Qed.
 
-Definition regsfor (bit : N) (rs : list reg) (pt : N) : list N :=
-  flat_map (fun r => if N.eqb (r_pt r) pt && N.testbit (r_which r) bit then [pt] else []) rs.
+Lemma regsfor_noncb b rs pt n : is_cb pt = false -> regsfor b rs pt n = regsfor b rs pt 0.
+Proof.
+  intros H. unfold regsfor, reg_fires. apply flat_map_ext. intros r. rewrite H. reflexivity.
+Qed.
 
-Lemma registered_one b rs pt lv d c aux :
-  registered b rs [mkEv pt lv d c aux] = if N.eqb pt P_VIEW && N.eqb aux 1 then [] else regsfor b rs pt.
-Proof. unfold registered. simpl. rewrite app_nil_r. destruct (N.eqb pt P_VIEW && N.eqb aux 1); reflexivity. Qed.
-
-Lemma do_regs_spec rs pt st :
-  stk (do_regs rs pt st) = stk st /\ log (do_regs rs pt st) = log st /\
-  nr (do_regs rs pt st) = nr st /\ nf (do_regs rs pt st) = nf st /\
-  rq (do_regs rs pt st) = rq st ++ regsfor 0 rs pt /\ fq (do_regs rs pt st) = fq st ++ regsfor 1 rs pt.
+Lemma do_regs_spec rs pt n st :
+  stk (do_regs rs pt n st) = stk st /\ log (do_regs rs pt n st) = log st /\
+  nr (do_regs rs pt n st) = nr st /\ nf (do_regs rs pt n st) = nf st /\
+  rq (do_regs rs pt n st) = rq st ++ regsfor 0 rs pt n /\ fq (do_regs rs pt n st) = fq st ++ regsfor 1 rs pt n.
 Proof.
   unfold do_regs, regsfor. revert st. induction rs as [|r rs IH]; intros st; simpl.
   - rewrite !app_nil_r. repeat split; reflexivity.
-  - destruct (N.eqb (r_pt r) pt); simpl; [|apply IH].
+  - destruct (reg_fires r pt n); simpl; [|apply IH].
     match goal with |- context [fold_left ?f rs ?s0] => destruct (IH s0) as [A [B [C [D [E F]]]]] end.
     rewrite A, B, C, D, E, F. simpl.
     destruct (N.testbit (r_which r) 0), (N.testbit (r_which r) 1); simpl; rewrite <- ?app_assoc; repeat split; reflexivity.
+Qed.
+
+(* the judge's [registered_from] on concatenations, on callback-free stretches, and on stretches of one kind *)
+Definition cnt (p : N) (X : list pev) : N := N.of_nat (length (filter (is_pt p) X)).
+
+Lemma registered_from_app b rs X : forall cr cf Y,
+  registered_from b rs cr cf (X ++ Y) =
+  registered_from b rs cr cf X ++ registered_from b rs (cr + cnt 16 X) (cf + cnt 18 X) Y.
+Proof.
+  induction X as [|e X IH]; intros cr cf Y; simpl.
+  - unfold cnt. simpl. rewrite !N.add_0_r. reflexivity.
+  - rewrite IH, <- app_assoc. f_equal. f_equal. unfold cnt. simpl.
+    destruct (is_pt 16 e), (is_pt 18 e); simpl length; f_equal; lia.
+Qed.
+
+Lemma registered_from_nocb b rs X : Forall (fun e => is_cb (e_pt e) = false) X ->
+  forall cr cf, registered_from b rs cr cf X = reg0 b rs X.
+Proof.
+  induction 1 as [|e X H F IH]; intros cr cf; simpl; [reflexivity|].
+  assert (A : is_pt 16 e = false /\ is_pt 18 e = false).
+  { unfold is_cb in H. apply orb_false_iff in H. unfold is_pt. exact H. }
+  destruct A as [A1 A2]. rewrite A1, A2, IH. f_equal.
+  rewrite (regsfor_noncb b rs (e_pt e) cf H). reflexivity.
+Qed.
+
+Lemma registered_from_fin b rs X : Forall (fun e => e_pt e = P_FIN_CB) X ->
+  forall cr cr' cf, registered_from b rs cr cf X = registered_from b rs cr' cf X.
+Proof.
+  induction 1 as [|e X H F IH]; intros cr cr' cf; simpl; [reflexivity|].
+  unfold is_pt. rewrite H. simpl. f_equal. apply IH.
+Qed.
+Lemma registered_from_resp b rs X : Forall (fun e => e_pt e = P_RESP_CB) X ->
+  forall cr cf cf', registered_from b rs cr cf X = registered_from b rs cr cf' X.
+Proof.
+  induction 1 as [|e X H F IH]; intros cr cf cf'; simpl; [reflexivity|].
+  unfold is_pt. rewrite H. simpl. f_equal. apply IH.
 Qed.
 
 (* ------------------------------------------------------------ faults under validity *)
@@ -76,7 +116,7 @@ Lemma find_fault_valid sc p n k :
   valid_level sc = true -> may_false p = false ->
   find_fault (s_faults sc) p n = k -> k <> 0 -> k <> K_FALSE /\ has_fault sc p = true.
 Proof.
-  unfold valid_level, find_fault, has_fault. intros V MF E K. apply andb_true_iff in V. destruct V as [V _].
+  unfold valid_level, find_fault, has_fault. intros V MF E K.
   rewrite forallb_forall in V.
   destruct (find _ (s_faults sc)) as [f|] eqn:Ef; [|congruence]. subst k.
   apply find_some in Ef. destruct Ef as [I C]. apply andb_true_iff in C. destruct C as [C _].
@@ -95,19 +135,6 @@ Proof.
   destruct (find_fault_valid sc p n _ V MF eq_refl E) as [_ X]. congruence.
 Qed.
 
-Lemma valid_regs sc : valid_level sc = true ->
-  regsfor 0 (s_regs sc) P_RESP_CB = [] /\ regsfor 1 (s_regs sc) P_FIN_CB = [].
-Proof.
-  unfold valid_level. intros V. apply andb_true_iff in V. destruct V as [_ V]. rewrite forallb_forall in V.
-  unfold regsfor. split.
-  - induction (s_regs sc) as [|r rs IH]; simpl; [reflexivity|].
-    pose proof (V r (or_introl eq_refl)) as X. apply andb_true_iff in X. destruct X as [X _].
-    apply negb_true_iff in X. rewrite X. simpl. apply IH. intros y Hy. apply V. right. exact Hy.
-  - induction (s_regs sc) as [|r rs IH]; simpl; [reflexivity|].
-    pose proof (V r (or_introl eq_refl)) as X. apply andb_true_iff in X. destruct X as [_ X].
-    apply negb_true_iff in X. rewrite X. simpl. apply IH. intros y Hy. apply V. right. exact Hy.
-Qed.
-
 (* ------------------------------------------------------------ the accumulation relation *)
 Section Level.
 Variables (l : N) (sc : scn).
@@ -121,8 +148,8 @@ Definition evok (A : N -> bool) (e : pev) : Prop :=
    deques grew by exactly the registrations of this request's new events; the deeper part is empty or Q *)
 Definition Rc (A : N -> bool) (Q : list pev -> Prop) (st st' : state) : Prop :=
   exists new, log st' = log st ++ new /\ Forall (evok A) new /\
-    rq st' = rq st ++ registered 0 (s_regs sc) (lvl_log l new) /\
-    fq st' = fq st ++ registered 1 (s_regs sc) (lvl_log l new) /\
+    rq st' = rq st ++ reg0 0 (s_regs sc) (lvl_log l new) /\
+    fq st' = fq st ++ reg0 1 (s_regs sc) (lvl_log l new) /\
     nr st' = nr st /\ nf st' = nf st /\
     (ge_log (l + 1) new = [] \/ Q (ge_log (l + 1) new)).
 Definition never : list pev -> Prop := fun _ => False.
@@ -142,7 +169,7 @@ Lemma Rc_comp A Q1 Q2 a b c :
   Rc A Q1 a b -> Rc A Q2 b c -> Rc A (fun s => Q1 s \/ Q2 s) a c.
 Proof.
   intros HQ [n1 [L1 [F1 [R1 [G1 [N1 [M1 S1]]]]]]] [n2 [L2 [F2 [R2 [G2 [N2 [M2 S2]]]]]]].
-  exists (n1 ++ n2). rewrite lvl_log_app, !registered_app, ge_log_app.
+  exists (n1 ++ n2). rewrite lvl_log_app, !reg0_app, ge_log_app.
   repeat split.
   - rewrite L2, L1, app_assoc. reflexivity.
   - apply Forall_app; auto.
@@ -229,34 +256,36 @@ Lemma sp_bind A m f : pres (Rs A) m -> (forall v, pres (Rp A) (f v)) -> pres (Rs
 Proof. intros. apply (pres_bind (Rs A) (Rp A) (Rs A)); [apply Rsp|auto|assumption|intros; auto]. Qed.
 
 (* one event of this request, with its registrations *)
-Lemma step_Rp A pt aux st :
-  A pt = true -> (N.eqb pt P_VIEW && N.eqb aux 1 = false) ->
-  Rp A st (do_regs (s_regs sc) pt (log_ev l pt aux st)).
+Lemma step_Rp A pt aux n st :
+  A pt = true -> (N.eqb pt P_VIEW && N.eqb aux 1 = false) -> is_cb pt = false ->
+  Rp A st (do_regs (s_regs sc) pt n (log_ev l pt aux st)).
 Proof.
-  intros HA HV. destruct (do_regs_spec (s_regs sc) pt (log_ev l pt aux st)) as [_ [B [C [D [E F]]]]].
+  intros HA HV HC. destruct (do_regs_spec (s_regs sc) pt n (log_ev l pt aux st)) as [_ [B [C [D [E F]]]]].
   eexists. split; [rewrite B; simpl; reflexivity|].
   assert (X : lvl_log l [mkEv pt l (N.of_nat (length (stk st))) (top_is l (stk st)) aux] =
               [mkEv pt l (N.of_nat (length (stk st))) (top_is l (stk st)) aux])
     by (unfold lvl_log; simpl; rewrite N.eqb_refl; reflexivity).
-  rewrite X, !registered_one, HV. repeat split; auto.
+  rewrite X, !reg0_one, HV, <- !(regsfor_noncb _ _ pt n HC). repeat split; auto.
   - constructor; [|constructor]. left. simpl. auto.
   - left. unfold ge_log. simpl. replace (N.leb (l + 1) l) with false; [reflexivity|].
     symmetry. apply N.leb_gt. lia.
 Qed.
 
 Lemma hit_state pt aux n mf st st' r :
-  hit l sc pt aux n mf st = (st', r) -> st' = do_regs (s_regs sc) pt (log_ev l pt aux st).
+  hit l sc pt aux n mf st = (st', r) -> st' = do_regs (s_regs sc) pt n (log_ev l pt aux st).
 Proof.
   unfold hit. destruct (N.eqb (find_fault (s_faults sc) pt n) 0);
     [|destruct (N.eqb (find_fault (s_faults sc) pt n) K_FALSE)]; intros E; injection E as <- _; reflexivity.
 Qed.
 
-Lemma pres_hit A pt aux n mf : A pt = true -> N.eqb pt P_VIEW = false -> pres (Rp A) (hit l sc pt aux n mf).
+Lemma pres_hit A pt aux n mf : A pt = true -> N.eqb pt P_VIEW || is_cb pt = false ->
+  pres (Rp A) (hit l sc pt aux n mf).
 Proof.
-  intros HA HV st st' r E. rewrite (hit_state _ _ _ _ _ _ _ E). apply step_Rp; [exact HA|].
+  intros HA HV st st' r E. apply orb_false_iff in HV. destruct HV as [HV HC].
+  rewrite (hit_state _ _ _ _ _ _ _ E). apply step_Rp; [exact HA| |exact HC].
   rewrite HV. reflexivity.
 Qed.
-Lemma pres_hit0 A pt : A pt = true -> N.eqb pt P_VIEW = false -> pres (Rp A) (hit0 l sc pt).
+Lemma pres_hit0 A pt : A pt = true -> N.eqb pt P_VIEW || is_cb pt = false -> pres (Rp A) (hit0 l sc pt).
 Proof. apply pres_hit. Qed.
 
 (* what a subrequest does, seen from this request *)
@@ -281,7 +310,7 @@ Proof.
   assert (X : lvl_log l [mkEv P_VIEW l (N.of_nat (length (stk st))) (top_is l (stk st)) 1] =
               [mkEv P_VIEW l (N.of_nat (length (stk st))) (top_is l (stk st)) 1])
     by (unfold lvl_log; simpl; rewrite N.eqb_refl; reflexivity).
-  rewrite X, !registered_one. simpl. rewrite !app_nil_r. repeat split; auto.
+  rewrite X, !reg0_one. simpl. rewrite !app_nil_r. repeat split; auto.
   - constructor; [|constructor]. left. simpl. auto.
   - left. unfold ge_log. simpl. replace (N.leb (l + 1) l) with false; [reflexivity|].
     symmetry. apply N.leb_gt. lia.
@@ -293,8 +322,8 @@ Hypothesis Hsub : forall sr, subrun = Some sr -> pres Rsub sr.
 Lemma pres_view_body A : A P_VIEW = true -> pres (Rs A) (view_body l sc subrun).
 Proof.
   intros HA st st' r E. unfold view_body in E.
-  pose proof (step_Rp A P_VIEW 0 st HA eq_refl) as X1.
-  set (st1 := do_regs (s_regs sc) P_VIEW (log_ev l P_VIEW 0 st)) in *.
+  pose proof (step_Rp A P_VIEW 0 0 st HA eq_refl eq_refl) as X1.
+  set (st1 := do_regs (s_regs sc) P_VIEW 0 (log_ev l P_VIEW 0 st)) in *.
   destruct subrun as [sr|] eqn:Es.
   - destruct (sr st1) as [st2 [v|k]] eqn:Er.
     + pose proof (Rsub_Rs A _ _ (Hsub sr eq_refl _ _ _ Er)) as X2.
@@ -347,7 +376,7 @@ Proof.
 Qed.
 
 Lemma pres_call_views A vs :
-  (forall p, In p vs -> p = P_DEFAULT_VIEW \/ (A p = true /\ N.eqb p P_VIEW = false)) ->
+  (forall p, In p vs -> p = P_DEFAULT_VIEW \/ (A p = true /\ N.eqb p P_VIEW || is_cb p = false)) ->
   pres (Rp A) (call_views l sc vs).
 Proof.
   induction vs as [|p rest IH]; intros H; simpl; [apply pres_raise|].
@@ -379,8 +408,8 @@ Proof.
   - intros k2. apply pres_if; apply pres_raise.
 Qed.
 
-Lemma pres_tween A pin pout h : A pin = true -> A pout = true -> N.eqb pin P_VIEW = false ->
-  N.eqb pout P_VIEW = false -> pres (Rs A) h -> pres (Rs A) (tween l sc pin pout h).
+Lemma pres_tween A pin pout h : A pin = true -> A pout = true -> N.eqb pin P_VIEW || is_cb pin = false ->
+  N.eqb pout P_VIEW || is_cb pout = false -> pres (Rs A) h -> pres (Rs A) (tween l sc pin pout h).
 Proof.
   intros H1 H2 V1 V2 Hh. unfold tween. apply ps_seq; [apply pres_hit0; assumption|].
   apply sp_bind; [exact Hh|]. intros r. apply pp_seq; [apply pres_hit0; assumption|apply pres_ret].
@@ -457,7 +486,7 @@ Proof.
   rewrite NC. cbn [negb orb].
   destruct (find _ (s_faults sc)) as [f'|] eqn:Ef.
   - apply find_some in Ef. destruct Ef as [I' _].
-    unfold valid_level in V. apply andb_true_iff in V. destruct V as [V1 _]. rewrite forallb_forall in V1.
+    pose proof V as V1. unfold valid_level in V1. rewrite forallb_forall in V1.
     specialize (V1 _ I'). apply andb_true_iff in V1. destruct V1 as [V1 _]. apply negb_true_iff in V1.
     apply N.eqb_neq. exact V1.
   - exfalso. pose proof (find_none _ _ Ef _ I) as X. cbv beta in X. rewrite C in X. discriminate.
@@ -469,7 +498,7 @@ Proof.
   intros MF NC st st' r E. unfold seq, bind in E.
   destruct (hit0 l sc p st) as [st1 r1] eqn:Eh. unfold hit0 in Eh.
   pose proof (hit_state _ _ _ _ _ _ _ _ _ Eh) as S1. pose proof (hit_result _ _ _ _ _ _ _ Eh) as R1. cbv zeta in R1.
-  destruct (do_regs_spec (s_regs sc) p (log_ev l p 0 st)) as [_ [B _]].
+  destruct (do_regs_spec (s_regs sc) p 0 (log_ev l p 0 st)) as [_ [B _]].
   exists [mkEv p l (N.of_nat (length (stk st))) (top_is l (stk st)) 0].
   assert (L : log st1 = log st ++ [mkEv p l (N.of_nat (length (stk st))) (top_is l (stk st)) 0])
     by (rewrite S1, B; reflexivity).
@@ -492,421 +521,111 @@ Section Loops.
 Variables (l : N) (sc : scn).
 Hypothesis V : valid_level sc = true.
 
-Lemma registered_const b p (X : list pev) :
-  Forall (fun e => e_pt e = p) X -> N.eqb p P_VIEW = false ->
-  registered b (s_regs sc) X = flat_map (fun _ => regsfor b (s_regs sc) p) X.
+(* the registrations a callback point can still make: those of the callback running now + the later ones *)
+Lemma pend_step bit pt rs c : is_cb pt = true ->
+  pend bit pt rs c = (length (regsfor bit rs pt c) + pend bit pt rs (c + 1))%nat.
 Proof.
-  clear V. intros F NV. induction F as [|e X E F IH]; [reflexivity|].
-  change (registered b (s_regs sc) (e :: X)) with (registered b (s_regs sc) ([e] ++ X)).
-  rewrite registered_app, IH. destruct e as [pt lv d c aux]. simpl in E. subst pt.
-  rewrite registered_one, NV. reflexivity.
+  clear V. intros HC. unfold pend, regsfor, reg_fires. rewrite HC. cbn [negb orb].
+  induction rs as [|r rs IH]; simpl; [reflexivity|].
+  rewrite app_length.
+  destruct (N.eqb (r_pt r) pt), (N.testbit (r_which r) bit); simpl; try exact IH;
+    try (destruct (N.eqb (r_n r) c); simpl; exact IH).
+  destruct (N.eqb (r_n r) c) eqn:E1, (N.leb c (r_n r)) eqn:E2, (N.leb (c + 1) (r_n r)) eqn:E3; simpl; try lia;
+    exfalso;
+    first [apply N.eqb_eq in E1 | apply N.eqb_neq in E1];
+    first [apply N.leb_le in E2 | apply N.leb_gt in E2];
+    first [apply N.leb_le in E3 | apply N.leb_gt in E3]; lia.
 Qed.
-Lemma flat_map_nil {A B} (X : list A) : flat_map (fun _ => @nil B) X = [].
-Proof. induction X; simpl; auto. Qed.
 
-Lemma resp_spec : forall fuel st st' r, (length (rq st) < fuel)%nat -> resp_cbs fuel l sc st = (st', r) ->
-  exists evs rest, rq st = map e_aux evs ++ rest /\ log st' = log st ++ evs /\
+Lemma resp_spec : forall fuel st st' r,
+  (length (rq st) + pend 0 P_RESP_CB (s_regs sc) (nr st) < fuel)%nat -> resp_cbs fuel l sc st = (st', r) ->
+  exists evs rest,
+    rq st ++ registered_from 0 (s_regs sc) (nr st) 0 evs = map e_aux evs ++ rest /\
+    log st' = log st ++ evs /\
     Forall (fun e => e_pt e = P_RESP_CB /\ e_lvl e = l) evs /\
-    fq st' = fq st ++ registered 1 (s_regs sc) evs /\
+    fq st' = fq st ++ registered_from 1 (s_regs sc) (nr st) 0 evs /\ nf st' = nf st /\
     ((r = Ok 0 /\ rest = []) \/ (exists k, r = Ex k /\ has_fault sc P_RESP_CB = true)).
 Proof.
   induction fuel as [|fuel IH]; intros st st' r Hlen E; [inversion Hlen|].
   simpl in E. destruct (rq st) as [|o rest0] eqn:Eq.
-  - injection E as <- <-. exists [], []. rewrite !app_nil_r. simpl. repeat split; auto.
+  - injection E as <- <-. exists [], []. simpl. rewrite !app_nil_r. repeat split; auto.
   - set (st1 := mkSt (stk st) (log st) rest0 (fq st) (nr st + 1) (nf st)) in *.
     destruct (hit l sc P_RESP_CB o (nr st) false st1) as [st2 r2] eqn:Eh.
     pose proof (hit_state _ _ _ _ _ _ _ _ _ Eh) as S2. pose proof (hit_result _ _ _ _ _ _ _ _ _ Eh) as R2.
     cbv zeta in R2.
-    destruct (do_regs_spec (s_regs sc) P_RESP_CB (log_ev l P_RESP_CB o st1)) as [_ [B [_ [_ [C D]]]]].
-    destruct (valid_regs sc V) as [VR _]. rewrite VR, app_nil_r in C.
+    destruct (do_regs_spec (s_regs sc) P_RESP_CB (nr st) (log_ev l P_RESP_CB o st1)) as [_ [B [N1 [N2 [C D]]]]].
     set (e0 := mkEv P_RESP_CB l (N.of_nat (length (stk st1))) (top_is l (stk st1)) o).
     assert (L2 : log st2 = log st ++ [e0]) by (rewrite S2, B; reflexivity).
-    assert (Q2 : rq st2 = rest0) by (rewrite S2, C; reflexivity).
-    assert (F2 : fq st2 = fq st ++ registered 1 (s_regs sc) [e0])
-      by (rewrite S2, D; unfold e0; rewrite registered_one; reflexivity).
+    assert (Q2 : rq st2 = rest0 ++ regsfor 0 (s_regs sc) P_RESP_CB (nr st)) by (rewrite S2, C; reflexivity).
+    assert (F2 : fq st2 = fq st ++ regsfor 1 (s_regs sc) P_RESP_CB (nr st)) by (rewrite S2, D; reflexivity).
+    assert (NR2 : nr st2 = nr st + 1) by (rewrite S2, N1; reflexivity).
+    assert (NF2 : nf st2 = nf st) by (rewrite S2, N2; reflexivity).
+    assert (U : forall b X, registered_from b (s_regs sc) (nr st) 0 (e0 :: X) =
+                regsfor b (s_regs sc) P_RESP_CB (nr st) ++ registered_from b (s_regs sc) (nr st + 1) 0 X)
+      by (intros b X; reflexivity).
     destruct (N.eqb (find_fault (s_faults sc) P_RESP_CB (nr st)) 0) eqn:K0.
-    + subst r2. assert (Hl : (length (rq st2) < fuel)%nat) by (rewrite Q2; simpl in Hlen; lia).
-      destruct (IH _ _ _ Hl E) as [evs [rest [A1 [A2 [A3 [A4 A5]]]]]].
-      exists (e0 :: evs), rest. rewrite Q2 in A1. repeat split.
-      * simpl. rewrite A1. reflexivity.
+    + subst r2.
+      assert (Hl : (length (rq st2) + pend 0 P_RESP_CB (s_regs sc) (nr st2) < fuel)%nat).
+      { rewrite Q2, NR2, app_length. rewrite (pend_step 0 P_RESP_CB (s_regs sc) (nr st) eq_refl) in Hlen.
+        simpl in Hlen. lia. }
+      destruct (IH _ _ _ Hl E) as [evs [rest [A1 [A2 [A3 [A4 [A6 A5]]]]]]].
+      rewrite NR2 in A1, A4. exists (e0 :: evs), rest. rewrite !U. split; [|split; [|split; [|split; [|split]]]].
+      * simpl. rewrite <- A1, Q2, <- !app_assoc. reflexivity.
       * rewrite A2, L2, <- app_assoc. reflexivity.
       * constructor; [split; reflexivity|exact A3].
-      * rewrite A4, F2, <- app_assoc.
-        change (e0 :: evs) with ([e0] ++ evs). rewrite registered_app. reflexivity.
+      * rewrite A4, F2, <- app_assoc. reflexivity.
+      * congruence.
       * exact A5.
     + apply N.eqb_neq in K0.
       destruct (find_fault_valid sc P_RESP_CB (nr st) _ V eq_refl eq_refl K0) as [KF HF].
       apply N.eqb_neq in KF. rewrite KF in R2. subst r2. injection E as <- <-.
-      exists [e0], rest0. split; [reflexivity|]. split; [exact L2|].
-      split; [constructor; [split; reflexivity|constructor]|]. split; [exact F2|].
+      exists [e0], (rest0 ++ regsfor 0 (s_regs sc) P_RESP_CB (nr st)). rewrite !U. simpl. rewrite !app_nil_r.
+      split; [reflexivity|]. split; [exact L2|].
+      split; [constructor; [split; reflexivity|constructor]|]. split; [exact F2|]. split; [exact NF2|].
       right. eexists. split; [reflexivity|exact HF].
 Qed.
 
-Lemma fin_spec : forall fuel st st' r, (length (fq st) < fuel)%nat -> fin_cbs fuel l sc st = (st', r) ->
-  exists evs rest, fq st = map e_aux evs ++ rest /\ log st' = log st ++ evs /\
+Lemma fin_spec : forall fuel st st' r,
+  (length (fq st) + pend 1 P_FIN_CB (s_regs sc) (nf st) < fuel)%nat -> fin_cbs fuel l sc st = (st', r) ->
+  exists evs rest,
+    fq st ++ registered_from 1 (s_regs sc) 0 (nf st) evs = map e_aux evs ++ rest /\
+    log st' = log st ++ evs /\
     Forall (fun e => e_pt e = P_FIN_CB /\ e_lvl e = l) evs /\
     ((r = Ok 0 /\ rest = []) \/ (exists k, r = Ex k /\ has_fault sc P_FIN_CB = true)).
 Proof.
   induction fuel as [|fuel IH]; intros st st' r Hlen E; [inversion Hlen|].
   simpl in E. destruct (fq st) as [|o rest0] eqn:Eq.
-  - injection E as <- <-. exists [], []. rewrite !app_nil_r. simpl. repeat split; auto.
+  - injection E as <- <-. exists [], []. simpl. rewrite !app_nil_r. repeat split; auto.
   - set (st1 := mkSt (stk st) (log st) (rq st) rest0 (nr st) (nf st + 1)) in *.
     destruct (hit l sc P_FIN_CB o (nf st) false st1) as [st2 r2] eqn:Eh.
     pose proof (hit_state _ _ _ _ _ _ _ _ _ Eh) as S2. pose proof (hit_result _ _ _ _ _ _ _ _ _ Eh) as R2.
     cbv zeta in R2.
-    destruct (do_regs_spec (s_regs sc) P_FIN_CB (log_ev l P_FIN_CB o st1)) as [_ [B [_ [_ [_ D]]]]].
-    destruct (valid_regs sc V) as [_ VR]. rewrite VR, app_nil_r in D.
+    destruct (do_regs_spec (s_regs sc) P_FIN_CB (nf st) (log_ev l P_FIN_CB o st1)) as [_ [B [N1 [N2 [C D]]]]].
     set (e0 := mkEv P_FIN_CB l (N.of_nat (length (stk st1))) (top_is l (stk st1)) o).
     assert (L2 : log st2 = log st ++ [e0]) by (rewrite S2, B; reflexivity).
-    assert (Q2 : fq st2 = rest0) by (rewrite S2, D; reflexivity).
+    assert (Q2 : fq st2 = rest0 ++ regsfor 1 (s_regs sc) P_FIN_CB (nf st)) by (rewrite S2, D; reflexivity).
+    assert (NF2 : nf st2 = nf st + 1) by (rewrite S2, N2; reflexivity).
+    assert (U : forall X, registered_from 1 (s_regs sc) 0 (nf st) (e0 :: X) =
+                regsfor 1 (s_regs sc) P_FIN_CB (nf st) ++ registered_from 1 (s_regs sc) 0 (nf st + 1) X)
+      by (intros X; reflexivity).
     destruct (N.eqb (find_fault (s_faults sc) P_FIN_CB (nf st)) 0) eqn:K0.
-    + subst r2. assert (Hl : (length (fq st2) < fuel)%nat) by (rewrite Q2; simpl in Hlen; lia).
+    + subst r2.
+      assert (Hl : (length (fq st2) + pend 1 P_FIN_CB (s_regs sc) (nf st2) < fuel)%nat).
+      { rewrite Q2, NF2, app_length. rewrite (pend_step 1 P_FIN_CB (s_regs sc) (nf st) eq_refl) in Hlen.
+        simpl in Hlen. lia. }
       destruct (IH _ _ _ Hl E) as [evs [rest [A1 [A2 [A3 A5]]]]].
-      exists (e0 :: evs), rest. rewrite Q2 in A1. repeat split.
-      * simpl. rewrite A1. reflexivity.
+      rewrite NF2 in A1. exists (e0 :: evs), rest. rewrite U. split; [|split; [|split]].
+      * simpl. rewrite <- A1, Q2, <- !app_assoc. reflexivity.
       * rewrite A2, L2, <- app_assoc. reflexivity.
       * constructor; [split; reflexivity|exact A3].
       * exact A5.
     + apply N.eqb_neq in K0.
       destruct (find_fault_valid sc P_FIN_CB (nf st) _ V eq_refl eq_refl K0) as [KF HF].
       apply N.eqb_neq in KF. rewrite KF in R2. subst r2. injection E as <- <-.
-      exists [e0], rest0. split; [reflexivity|]. split; [exact L2|].
+      exists [e0], (rest0 ++ regsfor 1 (s_regs sc) P_FIN_CB (nf st)). rewrite U. simpl. rewrite !app_nil_r.
+      split; [reflexivity|]. split; [exact L2|].
       split; [constructor; [split; reflexivity|constructor]|].
       right. eexists. split; [reflexivity|exact HF].
 Qed.
 
 End Loops.
-
-(* ------------------------------------------------------------ the judge on a log of the expected shape *)
-Section Shape.
-Variables (l : N) (sc : scn).
-Hypothesis V : valid_level sc = true.
-
-Lemma before_first_sat p (X : list pev) : Forall (fun e => p e = true) X -> before_first p X = [].
-Proof. intros F. destruct F; simpl; [reflexivity|]. rewrite H. reflexivity. Qed.
-
-Lemma pt_is p q (X : list pev) : Forall (fun e => e_pt e = p) X -> N.eqb p q = false ->
-  Forall (fun e => is_pt q e = false) X.
-Proof. intros F H. eapply Forall_impl; [|exact F]. intros e E. unfold is_pt. rewrite E. exact H. Qed.
-Lemma pt_is_t p (X : list pev) : Forall (fun e => e_pt e = p) X -> Forall (fun e => is_pt p e = true) X.
-Proof. intros F. eapply Forall_impl; [|exact F]. intros e E. unfold is_pt. rewrite E. apply N.eqb_refl. Qed.
-
-Lemma judge_own_shape (tw : bool) (Lc Lr Ln Lf : list pev) (rest : list N) :
-  let p := if tw then P_OVER_OUT else P_RENDERER in
-  Forall (fun e => e_cur e = true) (Lc ++ Lr ++ Ln ++ Lf) ->
-  Forall (fun e => is_pt P_RESP_CB e = false /\ is_pt P_NEWRESP e = false /\ is_pt P_FIN_CB e = false) Lc ->
-  Forall (fun e => e_pt e = P_RESP_CB) Lr -> Forall (fun e => e_pt e = P_NEWRESP) Ln ->
-  Forall (fun e => e_pt e = P_FIN_CB) Lf ->
-  registered 0 (s_regs sc) Lc = map e_aux Lr ++ rest ->
-  (existsb (is_pt p) Lc && negb (has_fault sc p) = false -> Lr = [] /\ Ln = []) ->
-  (length Ln <= 1)%nat ->
-  (existsb (is_pt p) Lc && negb (has_fault sc p) = true -> has_fault sc P_RESP_CB = false ->
-     rest = [] /\ length Ln = 1%nat) ->
-  (has_fault sc P_FIN_CB = false -> map e_aux Lf = registered 1 (s_regs sc) (Lc ++ Lr ++ Ln)) ->
-  judge_own l sc tw (Lc ++ Lr ++ Ln ++ Lf) = true.
-Proof.
-  intros p Hcur Hc Hr Hn Hf Hreg Hno Hn1 Hyes Hfin.
-  destruct (valid_regs sc V) as [VR VF].
-  assert (Hc16 : Forall (fun e => is_pt P_RESP_CB e = false) Lc) by (eapply Forall_impl; [|exact Hc]; intros e H; apply H).
-  assert (Hc17 : Forall (fun e => is_pt P_NEWRESP e = false) Lc) by (eapply Forall_impl; [|exact Hc]; intros e H; apply H).
-  assert (Hc18 : Forall (fun e => is_pt P_FIN_CB e = false) Lc) by (eapply Forall_impl; [|exact Hc]; intros e H; apply H).
-  assert (F18 : filter (is_pt P_FIN_CB) (Lc ++ Lr ++ Ln ++ Lf) = Lf).
-  { rewrite !filter_app, (filter_none _ Lc Hc18), (filter_none _ Lr (pt_is _ P_FIN_CB _ Hr eq_refl)),
-      (filter_none _ Ln (pt_is _ P_FIN_CB _ Hn eq_refl)), (filter_all _ Lf (pt_is_t _ _ Hf)). reflexivity. }
-  assert (F16 : filter (is_pt P_RESP_CB) (Lc ++ Lr ++ Ln ++ Lf) = Lr).
-  { rewrite !filter_app, (filter_none _ Lc Hc16), (filter_all _ Lr (pt_is_t _ _ Hr)),
-      (filter_none _ Ln (pt_is _ P_RESP_CB _ Hn eq_refl)), (filter_none _ Lf (pt_is _ P_RESP_CB _ Hf eq_refl)).
-    rewrite app_nil_r. reflexivity. }
-  assert (F17 : filter (is_pt P_NEWRESP) (Lc ++ Lr ++ Ln ++ Lf) = Ln).
-  { rewrite !filter_app, (filter_none _ Lc Hc17), (filter_none _ Lr (pt_is _ P_NEWRESP _ Hr eq_refl)),
-      (filter_all _ Ln (pt_is_t _ _ Hn)), (filter_none _ Lf (pt_is _ P_NEWRESP _ Hf eq_refl)).
-    rewrite app_nil_r. reflexivity. }
-  assert (Pne : N.eqb P_RESP_CB p = false /\ N.eqb P_NEWRESP p = false /\ N.eqb P_FIN_CB p = false)
-    by (subst p; destruct tw; repeat split; reflexivity).
-  destruct Pne as [Pn1 [Pn2 Pn3]].
-  assert (EX : existsb (is_pt p) (Lc ++ Lr ++ Ln ++ Lf) = existsb (is_pt p) Lc).
-  { rewrite !existsb_app, (existsb_none _ Lr (pt_is _ _ _ Hr Pn1)), (existsb_none _ Ln (pt_is _ _ _ Hn Pn2)),
-      (existsb_none _ Lf (pt_is _ _ _ Hf Pn3)). rewrite !orb_false_r. reflexivity. }
-  assert (Q78 : forall X, Forall (fun e => e_pt e = P_NEWRESP) X \/ Forall (fun e => e_pt e = P_FIN_CB) X ->
-                Forall (fun e => is_pt P_NEWRESP e || is_pt P_FIN_CB e = true) X).
-  { intros X [H|H]; eapply Forall_impl; try exact H; intros e E; unfold is_pt; rewrite E; reflexivity. }
-  assert (Qnf : Forall (fun e => is_pt P_NEWRESP e || is_pt P_FIN_CB e = true) (Ln ++ Lf))
-    by (apply Forall_app; split; apply Q78; auto).
-  assert (Qcr : Forall (fun e => is_pt P_NEWRESP e || is_pt P_FIN_CB e = false) (Lc ++ Lr)).
-  { apply Forall_app; split.
-    - eapply Forall_impl; [|exact Hc]. intros e [_ [H1 H2]]. rewrite H1, H2. reflexivity.
-    - eapply Forall_impl; [|exact Hr]. intros e E. unfold is_pt. rewrite E. reflexivity. }
-  assert (BF : before_first (fun e => is_pt P_NEWRESP e || is_pt P_FIN_CB e) (Lc ++ Lr ++ Ln ++ Lf) = Lc ++ Lr).
-  { rewrite (app_assoc Lc Lr), (before_first_app _ (Lc ++ Lr) (Ln ++ Lf) Qcr), (before_first_sat _ _ Qnf).
-    apply app_nil_r. }
-  assert (R0r : registered 0 (s_regs sc) Lr = []).
-  { rewrite (registered_const _ 0 P_RESP_CB Lr Hr eq_refl), VR. apply flat_map_nil. }
-  assert (R1f : registered 1 (s_regs sc) Lf = []).
-  { rewrite (registered_const _ 1 P_FIN_CB Lf Hf eq_refl), VF. apply flat_map_nil. }
-  assert (RR : registered 0 (s_regs sc) (Lc ++ Lr) = map e_aux Lr ++ rest)
-    by (rewrite registered_app, R0r, app_nil_r; exact Hreg).
-  assert (R1 : registered 1 (s_regs sc) (Lc ++ Lr ++ Ln ++ Lf) = registered 1 (s_regs sc) (Lc ++ Lr ++ Ln)).
-  { rewrite (app_assoc Lr), (app_assoc Lc), registered_app, R1f, app_nil_r. reflexivity. }
-  assert (FF1 : from_first (is_pt P_FIN_CB) (is_pt P_FIN_CB) (Lc ++ Lr ++ Ln ++ Lf) = true).
-  { rewrite (app_assoc Lr), (app_assoc Lc). rewrite from_first_app.
-    - apply from_first_forall. apply pt_is_t. exact Hf.
-    - repeat (apply Forall_app; split); auto.
-      + apply (pt_is _ P_FIN_CB _ Hr eq_refl).
-      + apply (pt_is _ P_FIN_CB _ Hn eq_refl). }
-  assert (FF2 : from_first (is_pt P_NEWRESP) (fun e => is_pt P_NEWRESP e || is_pt P_FIN_CB e)
-                           (Lc ++ Lr ++ Ln ++ Lf) = true).
-  { rewrite (app_assoc Lc Lr). rewrite from_first_app.
-    - apply from_first_forall. exact Qnf.
-    - apply Forall_app; split; [exact Hc17|apply (pt_is _ P_NEWRESP _ Hr eq_refl)]. }
-  unfold judge_own. cbv zeta. fold p. rewrite F18, F16, F17, EX, BF, RR, R1, FF1, FF2.
-  assert (C1 : forallb (fun e => negb (is_pt P_VIEW e || is_pt P_EXCVIEW e || is_pt P_EXCVIEW_HTTP e) || e_cur e) (Lc ++ Lr ++ Ln ++ Lf) = true).
-  { apply forallb_forall. rewrite Forall_forall in Hcur. intros e I. rewrite (Hcur _ I). apply orb_true_r. }
-  rewrite C1. cbn [andb].
-  assert (C2 : has_fault sc P_FIN_CB || (list_eqb (map e_aux Lf) (registered 1 (s_regs sc) (Lc ++ Lr ++ Ln)) && true) = true).
-  { destruct (has_fault sc P_FIN_CB) eqn:HF; [reflexivity|]. rewrite (Hfin eq_refl), list_eqb_refl. reflexivity. }
-  rewrite C2. cbn [andb].
-  destruct (existsb (is_pt p) Lc && negb (has_fault sc p)) eqn:CO.
-  - destruct (has_fault sc P_RESP_CB) eqn:HR.
-    + rewrite is_prefix_app. apply Nat.leb_le in Hn1. rewrite Hn1. reflexivity.
-    + destruct (Hyes eq_refl eq_refl) as [-> HL]. rewrite app_nil_r, list_eqb_refl, HL. reflexivity.
-  - destruct (Hno eq_refl) as [-> ->]. reflexivity.
-Qed.
-
-End Shape.
-
-(* ------------------------------------------------------------ one request *)
-Section Request.
-Variables (l : N) (sc : scn).
-Hypothesis V : valid_level sc = true.
-Variable P : list pev -> Prop.
-Variable subrun : option M.
-Hypothesis Hsub : forall sr, subrun = Some sr -> pres (Rsub l P) sr.
-
-Definition A16 (q : N) : bool := negb (memN q [P_RESP_CB; P_NEWRESP; P_FIN_CB]).
-Definition Anot (p q : N) : bool := negb (N.eqb q p).
-
-Ltac covtac := let q := fresh "q" in let Hq := fresh "Hq" in
-  intros q Hq; simpl in Hq; repeat (destruct Hq as [<-|Hq]; [reflexivity|]); destruct Hq.
-
-Lemma pres_chain (ev : N) (tw : bool) : pres (Rs l sc P A16) (invoke_chain ev l sc tw subrun).
-Proof.
-  unfold invoke_chain. destruct tw.
-  - unfold tween_chain. apply pres_tween; try reflexivity.
-    eapply pres_excview_part; [exact Hsub|covtac].
-  - eapply pres_handle_request; [exact Hsub|covtac].
-Qed.
-
-Lemma NoP_hit p pt aux n mf : N.eqb pt p = false -> N.eqb pt P_VIEW = false ->
-  pres (NoP l p) (hit l sc pt aux n mf).
-Proof.
-  intros H HV. eapply NoP_of; [apply (pres_hit l sc (Anot p)); [unfold Anot; rewrite H; reflexivity|exact HV]|].
-  unfold Anot. rewrite N.eqb_refl. reflexivity.
-Qed.
-
-Lemma LP_chain (ev : N) (tw : bool) : LP l sc (if tw then P_OVER_OUT else P_RENDERER) (invoke_chain ev l sc tw subrun).
-Proof.
-  unfold invoke_chain. destruct tw.
-  - unfold tween_chain, tween.
-    apply LP_seq; [apply NoP_hit; reflexivity|].
-    apply LP_bind.
-    + eapply NoP_of; [eapply (pres_excview_part l sc P subrun Hsub (Anot P_OVER_OUT)); covtac|reflexivity].
-    + intros r. apply LP_last; [exact V|reflexivity|reflexivity].
-  - unfold handle_request.
-    apply LP_seq; [apply NoP_hit; reflexivity|].
-    apply LP_bind.
-    { destruct (s_route sc); [apply NoP_hit; reflexivity|].
-      eapply NoP_of; [apply (pres_ret l sc (Anot P_RENDERER) never)|reflexivity]. }
-    intros matched.
-    apply LP_seq; [apply NoP_hit; reflexivity|].
-    apply LP_seq; [destruct (N.eqb matched 0); apply NoP_hit; reflexivity|].
-    apply LP_seq; [apply NoP_hit; reflexivity|].
-    apply LP_seq; [apply NoP_hit; reflexivity|].
-    unfold derived_view.
-    apply LP_bind; [apply NoP_hit; reflexivity|]. intros ok.
-    apply LP_if; [apply LP_raise|].
-    apply LP_bind; [apply NoP_hit; reflexivity|]. intros ok2.
-    apply LP_if; [apply LP_raise|].
-    apply LP_seq.
-    + eapply NoP_of; [eapply (pres_view_body l sc P subrun Hsub (Anot P_RENDERER)); reflexivity|reflexivity].
-    + apply LP_last; [exact V|reflexivity|reflexivity].
-Qed.
-
-Lemma Forall_filter {A} (Q : A -> Prop) (f : A -> bool) (X : list A) : Forall Q X -> Forall Q (filter f X).
-Proof. induction 1; simpl; [constructor|]. destruct (f x); [constructor|]; auto. Qed.
-
-Lemma own_all (X : list pev) : Forall (fun e => e_lvl e = l) X -> lvl_log l X = X /\ ge_log (l + 1) X = [].
-Proof.
-  intros F. split.
-  - apply filter_all. eapply Forall_impl; [|exact F]. intros e E. simpl. rewrite E. apply N.eqb_refl.
-  - apply filter_none. eapply Forall_impl; [|exact F]. intros e E. simpl. rewrite E. apply N.leb_gt. lia.
-Qed.
-
-(* after the tween chain: response callbacks and NewResponse (only when it returned) *)
-Lemma after_chain (rc : res) (st_c st_m : state) (r_m : res) :
-  match rc with
-  | Ok v => seq (resp_loop l sc) (seq (hit0 l sc P_NEWRESP) (ret v)) st_c = (st_m, r_m)
-  | Ex k => (st_c, Ex k) = (st_m, r_m)
-  end ->
-  exists Lr Ln rest,
-    log st_m = log st_c ++ Lr ++ Ln /\
-    Forall (fun e => e_pt e = P_RESP_CB /\ e_lvl e = l) Lr /\
-    Forall (fun e => e_pt e = P_NEWRESP /\ e_lvl e = l) Ln /\ (length Ln <= 1)%nat /\
-    rq st_c = map e_aux Lr ++ rest /\
-    fq st_m = fq st_c ++ registered 1 (s_regs sc) (Lr ++ Ln) /\
-    (is_ok rc = false -> Lr = [] /\ Ln = []) /\
-    (is_ok rc = true -> has_fault sc P_RESP_CB = false -> rest = [] /\ length Ln = 1%nat).
-Proof.
-  destruct rc as [v|k]; intros E.
-  - unfold seq, bind, resp_loop in E.
-    destruct (resp_cbs (S (length (rq st_c))) l sc st_c) as [st_r r_r] eqn:Er.
-    destruct (resp_spec l sc V _ _ _ _ (Nat.lt_succ_diag_r _) Er) as [Lr [rest [A1 [A2 [A3 [A4 A5]]]]]].
-    destruct A5 as [[-> ->]|[k [-> HF]]].
-    + destruct (hit0 l sc P_NEWRESP st_r) as [st_n r_n] eqn:Eh. unfold hit0 in Eh.
-      pose proof (hit_state _ _ _ _ _ _ _ _ _ Eh) as S1.
-      destruct (do_regs_spec (s_regs sc) P_NEWRESP (log_ev l P_NEWRESP 0 st_r)) as [_ [B [_ [_ [_ D]]]]].
-      set (e0 := mkEv P_NEWRESP l (N.of_nat (length (stk st_r))) (top_is l (stk st_r)) 0).
-      assert (st_m = st_n) as -> by (destruct r_n; unfold ret in E; injection E as <- _; reflexivity).
-      exists Lr, [e0], [].
-      split; [rewrite S1, B; simpl; rewrite A2, <- app_assoc; reflexivity|].
-      split; [exact A3|]. split; [constructor; [split; reflexivity|constructor]|].
-      split; [simpl; lia|]. split; [exact A1|].
-      split.
-      { rewrite S1, D. simpl. rewrite A4, registered_app, <- app_assoc. f_equal. f_equal.
-        unfold e0. rewrite registered_one. reflexivity. }
-      split; [intros X; discriminate X|]. intros _ _. split; reflexivity.
-    + injection E as <- <-. exists Lr, [], rest. rewrite !app_nil_r.
-      split; [exact A2|]. split; [exact A3|]. split; [constructor|]. split; [simpl; lia|].
-      split; [exact A1|]. split; [exact A4|].
-      split; [intros X; discriminate X|]. intros _ X. congruence.
-  - injection E as <- <-. exists [], [], (rq st_c). simpl. rewrite !app_nil_r.
-    split; [reflexivity|]. split; [constructor|]. split; [constructor|]. split; [lia|].
-    split; [reflexivity|]. split; [reflexivity|].
-    split; [intros _; split; reflexivity|]. intros X; discriminate X.
-Qed.
-
-Theorem request_judged (ev : N) (tw : bool) st st' r :
-  rq st = [] -> fq st = [] ->
-  invoke_request ev l sc tw subrun st = (st', r) ->
-  exists new, log st' = log st ++ new /\ Forall (fun e => l <= e_lvl e) new /\
-    (ge_log (l + 1) new = [] \/ P (ge_log (l + 1) new)) /\
-    (Forall (fun e => e_cur e = true) new -> judge_own l sc tw (lvl_log l new) = true).
-Proof.
-  intros Hrq Hfq E. unfold invoke_request, finally in E.
-  destruct (invoke_body ev l sc tw subrun st) as [st_m r_m] eqn:Eb.
-  unfold invoke_body, bind in Eb.
-  destruct (invoke_chain ev l sc tw subrun st) as [st_c rc] eqn:Ec.
-  destruct (pres_chain ev tw _ _ _ Ec) as [nc [Lc [Fc [Rq [Fq [_ [_ Sc]]]]]]].
-  destruct (LP_chain ev tw _ _ _ Ec) as [nc' [Lc' CO]].
-  assert (nc' = nc) by (rewrite Lc in Lc'; apply app_inv_head in Lc'; auto). subst nc'.
-  rewrite Hrq in Rq. rewrite Hfq in Fq. simpl in Rq, Fq.
-  assert (AC : match rc with
-               | Ok v => seq (resp_loop l sc) (seq (hit0 l sc P_NEWRESP) (ret v)) st_c = (st_m, r_m)
-               | Ex k => (st_c, Ex k) = (st_m, r_m) end) by (destruct rc; exact Eb).
-  destruct (after_chain rc st_c st_m r_m AC) as [Lr [Ln [rest [Lm [Fr [Fn [Hn1 [Qc [Fm [Hno Hyes]]]]]]]]]].
-  unfold fin_loop in E.
-  destruct (fin_cbs (S (length (fq st_m))) l sc st_m) as [st_f r_f] eqn:Ef.
-  destruct (fin_spec l sc V _ _ _ _ (Nat.lt_succ_diag_r _) Ef) as [Lf [restf [B1 [B2 [B3 B5]]]]].
-  assert (st' = st_f) as -> by (destruct r_f; injection E as <- _; reflexivity).
-  assert (Or : Forall (fun e => e_lvl e = l) Lr) by (eapply Forall_impl; [|exact Fr]; intros e H; apply H).
-  assert (On : Forall (fun e => e_lvl e = l) Ln) by (eapply Forall_impl; [|exact Fn]; intros e H; apply H).
-  assert (Of : Forall (fun e => e_lvl e = l) Lf) by (eapply Forall_impl; [|exact B3]; intros e H; apply H).
-  destruct (own_all Lr Or) as [Or1 Or2]. destruct (own_all Ln On) as [On1 On2]. destruct (own_all Lf Of) as [Of1 Of2].
-  exists (nc ++ Lr ++ Ln ++ Lf). split; [|split; [|split]].
-  - rewrite B2, Lm, Lc, <- !app_assoc. reflexivity.
-  - repeat (apply Forall_app; split).
-    + eapply Forall_impl; [|exact Fc]. intros e [[H _]|H]; lia.
-    + eapply Forall_impl; [|exact Or]. intros e H; cbv beta in *; lia.
-    + eapply Forall_impl; [|exact On]. intros e H; cbv beta in *; lia.
-    + eapply Forall_impl; [|exact Of]. intros e H; cbv beta in *; lia.
-  - rewrite !ge_log_app, Or2, On2, Of2, !app_nil_r. exact Sc.
-  - intros Hcur. rewrite !lvl_log_app, Or1, On1, Of1.
-    apply (judge_own_shape l sc V tw (lvl_log l nc) Lr Ln Lf rest).
-    + rewrite <- Or1, <- On1, <- Of1, <- !lvl_log_app. apply Forall_filter. exact Hcur.
-    + unfold lvl_log. rewrite Forall_forall in Fc |- *. intros e I. apply filter_In in I. destruct I as [I EL].
-      apply N.eqb_eq in EL. destruct (Fc _ I) as [[_ HA]|HL]; [|lia].
-      unfold A16 in HA. apply negb_true_iff in HA. unfold is_pt. simpl in HA.
-      apply orb_false_iff in HA. destruct HA as [H1 HA]. apply orb_false_iff in HA. destruct HA as [H2 HA].
-      apply orb_false_iff in HA. destruct HA as [H3 _]. auto.
-    + eapply Forall_impl; [|exact Fr]. intros e H; apply H.
-    + eapply Forall_impl; [|exact Fn]. intros e H; apply H.
-    + eapply Forall_impl; [|exact B3]. intros e H; apply H.
-    + rewrite <- Rq. exact Qc.
-    + intros X. apply Hno. rewrite <- CO. unfold cameb. rewrite <- X. f_equal.
-      unfold lvl_log. rewrite existsb_filter. reflexivity.
-    + exact Hn1.
-    + intros X. apply Hyes. rewrite <- CO. unfold cameb. rewrite <- X. f_equal.
-      unfold lvl_log. rewrite existsb_filter. reflexivity.
-    + intros HF. destruct B5 as [[_ ->]|[k [_ HF']]]; [|congruence].
-      rewrite app_nil_r in B1. rewrite <- B1, Fm, Fq. symmetry. apply registered_app.
-Qed.
-
-End Request.
-
-(* ------------------------------------------------------------ the tree *)
-Lemma judge_tree_ge : forall sc k tw lg, judge_tree k sc tw (ge_log k lg) = judge_tree k sc tw lg.
-Proof.
-  fix IH 1. intros [r fs rs sb] k tw lg. simpl.
-  assert (X : lvl_log k (ge_log k lg) = lvl_log k lg).
-  { apply filter_filter_imp. intros e H. apply N.eqb_eq in H. apply N.leb_le. lia. }
-  unfold judge_level. rewrite X. f_equal. destruct sb as [|tw' sc']; [reflexivity|].
-  assert (Y : lvl_log (k + 1) (ge_log k lg) = lvl_log (k + 1) lg).
-  { apply filter_filter_imp. intros e H. apply N.eqb_eq in H. apply N.leb_le. lia. }
-  rewrite Y. destruct (lvl_log (k + 1) lg); [reflexivity|].
-  rewrite <- (IH sc' (k + 1) tw' (ge_log k lg)), <- (IH sc' (k + 1) tw' lg). f_equal.
-  apply filter_filter_imp. intros e H. apply N.leb_le in H. apply N.leb_le. lia.
-Qed.
-
-(* what run_request guarantees, as the parent request needs it *)
-Definition subP (k : N) (sc : scn) (tw : bool) (seg : list pev) : Prop :=
-  Forall (fun e => e_cur e = true) seg -> judge_tree k sc tw seg = true.
-
-Fixpoint run_request_judged (sc : scn) : forall ev l tw st st' r,
-  valid_tree sc = true -> run_request ev l sc tw st = (st', r) ->
-  exists new, log st' = log st ++ new /\ Forall (fun e => l <= e_lvl e) new /\
-    rq st' = rq st /\ fq st' = fq st /\ nr st' = nr st /\ nf st' = nf st /\ subP l sc tw new.
-Proof.
-  intros ev l tw st st' r VT E. destruct sc as [rt fs rs sb]. simpl in E.
-  unfold with_fresh_request in E.
-  match type of E with context [frame l ?m ?s0] => destruct (frame l m s0) as [st1 r1] eqn:Ef end.
-  injection E as <- <-.
-  unfold frame, seq, bind, push, upd_stk in Ef. cbn [stk log rq fq nr nf] in Ef.
-  unfold finally in Ef.
-  match type of Ef with context [invoke_request ev l ?scx tw ?sub ?s0] =>
-    destruct (invoke_request ev l scx tw sub s0) as [st2 r2] eqn:Ei end.
-  unfold pop, upd_stk in Ef. injection Ef as <- <-.
-  simpl in VT. apply andb_true_iff in VT. destruct VT as [VL VS].
-  set (scx := Scn rt fs rs sb) in *.
-  set (Psub := match sb with NoSub => never | Sub tw' sc' => subP (l + 1) sc' tw' end).
-  assert (Hsub : forall sr, match sb with NoSub => None | Sub tw' sc' => Some (run_request ev (l + 1) sc' tw') end = Some sr ->
-                 pres (Rsub l Psub) sr).
-  { intros sr Hs. destruct sb as [|tw' sc']; [discriminate|]. injection Hs as <-.
-    intros a b rr Er. destruct (run_request_judged sc' ev (l + 1) tw' a b rr VS Er) as [n [A1 [A2 [A3 [A4 [A5 [A6 A7]]]]]]].
-    exists n. repeat split; auto. }
-  pose proof (fun a b => request_judged l scx VL Psub _ Hsub ev tw _ _ _ a b Ei) as RJ.
-  destruct (RJ eq_refl eq_refl) as [new [L [F [S J]]]].
-  exists new. cbn [stk log rq fq nr nf] in *. repeat split; auto.
-  intros Hcur. subst scx. simpl. unfold judge_level. rewrite (J Hcur). cbn [andb].
-  destruct sb as [|tw' sc']; [reflexivity|].
-  assert (Y : lvl_log (l + 1) new = lvl_log (l + 1) (ge_log (l + 1) new)).
-  { symmetry. apply filter_filter_imp. intros e H. apply N.eqb_eq in H. apply N.leb_le. lia. }
-  destruct S as [S|S].
-  - rewrite Y, S. reflexivity.
-  - destruct (lvl_log (l + 1) new); [reflexivity|].
-    rewrite <- judge_tree_ge. apply S. apply Forall_filter. exact Hcur.
-Qed.
-
-(* the central statement: for every valid scenario tree, with or without an exception view, the run of the
-   pipeline interpreter satisfies the declarative judge of the property *)
-Theorem model_satisfies_judge : forall ev sc st r,
-  valid_tree sc = true -> run_top ev sc [] = (st, r) ->
-  judge sc (N.of_nat (length (stk st))) (log st) = true.
-Proof.
-  intros ev sc st r VT E. destruct (pipeline_depth _ _ _ _ _ E) as [S C].
-  unfold run_top in E. destruct (run_request_judged sc ev 0 true _ _ _ VT E) as [new [L [_ [_ [_ [_ [_ J]]]]]]].
-  simpl in L. unfold judge. rewrite S. simpl. rewrite L in *. apply J. exact C.
-Qed.
-
-(* non-vacuity: the example tree (fault in the parent's view, subrequest without tweens failing in its
-   renderer, callbacks registered at three points) is valid *)
-Example ex_scn_valid : valid_tree ex_scn = true.
-Proof. vm_compute. reflexivity. Qed.
